@@ -167,6 +167,10 @@ ApiClose(c) ==
 \* DIP.parse(text): every `$unit` line and every node that uses units opens a scope over the
 \* custom units collected so far (env.units) and closes it again; `$unit` then adds its symbol.
 \* An exception anywhere aborts the parse (nothing catches it).
+\* line kinds that USE the custom unit [len] of the text: as the unit of a literal ("useu"), as the declared unit of an
+\* expression-valued node ("nestu"), through a referenced node in a condition ("condu") or in a boolean node ("boolu")
+NeedsLen == {"useu", "nestu", "condu", "boolu"}
+
 DipBegin(text) ==
   /\ Idle /\ Len(hist) < MaxOps
   /\ dip' = [text |-> text, i |-> 1, units |-> <<>>, sc |-> 0]
@@ -195,6 +199,7 @@ DipBody ==
          dup == ln.kind = "unit" /\ ln.sym \in {dip.units[j].sym : j \in 1..Len(dip.units)}
      IN /\ Close(c)
         /\ IF ln.kind \in {"bad", "convbad"} \/ dup \/ (NestedNumerical /\ ln.kind = "nest" /\ dip.units # <<>>)
+              \/ (ln.kind \in NeedsLen /\ "[len]" \notin {dip.units[j].sym : j \in 1..Len(dip.units)})   \* unknown unit
            THEN /\ dip' = NoDip /\ Log("dip", dip.text, "fail")
            ELSE IF dip.i = Len(dip.text)
            THEN /\ dip' = NoDip /\ Log("dip", dip.text, "ok")
